@@ -355,6 +355,10 @@ def r_gantt(ctx):
         rows_src = it0[2][0]
         key = ("idx", ("elem", L0), K(1))
         pos = ("pos", L0)
+        # rows may be enumerated through the dict itself (keys) or through its values: same order, same rows
+        by_value = isinstance(rows_src, tuple) and rows_src and rows_src[0] == "mcall" and rows_src[2] == "values" and not rows_src[3]
+        if by_value:
+            rows_src = rows_src[1]
         if mode == "Task":
             # rows = the scheduled tasks only
             is_sched = rows_src[0] == "dict" and len(rows_src[1]) == 1 and rows_src[1][0][0] == "each" \
@@ -368,7 +372,8 @@ def r_gantt(ctx):
             ts = ("idx", A(sol, "tasks"), key)
             start, length = A(ts, "start"), A(ts, "duration")
         else:
-            ok = norm(rows_src) == A(sol, "resources") and norm(bar.loops[1][3]) == norm(A(("idx", A(sol, "resources"), key), "assignments"))
+            res_of_row = key if by_value else ("idx", A(sol, "resources"), key)
+            ok = norm(rows_src) == A(sol, "resources") and norm(bar.loops[1][3]) == norm(A(res_of_row, "assignments"))
             if ok:
                 ctx.ok("R-GANTT-MULT", f"Resource mode [{cfgs}]: one bar per assignment of every resource")
             else:
